@@ -451,7 +451,7 @@ class ValueWrapper(Term):
         if isinstance(value, uuid.UUID):
             return cls.get_formatted_value(str(value), ctx)
         if isinstance(value, (dict, list)):
-            return format_quotes(json.dumps(value), quote_char)
+            return format_quotes(json.dumps(value).replace(quote_char, quote_char * 2), quote_char)
         if value is None:
             return "null"
         return str(value)
@@ -504,10 +504,15 @@ class JSON(Term):
 
     @staticmethod
     def _get_str_sql(value: str, quote_char: str = '"', **kwargs: Any) -> str:
+        # JSON string syntax: backslash and the delimiter are backslash-escaped
+        value = value.replace("\\", "\\\\").replace(quote_char, "\\" + quote_char)
         return format_quotes(value, quote_char)
 
     def get_sql(self, ctx: SqlContext) -> str:
-        sql = format_quotes(self._recursive_get_sql(self.value), ctx.secondary_quote_char)
+        quote_char = ctx.secondary_quote_char or ""
+        sql = format_quotes(
+            self._recursive_get_sql(self.value).replace(quote_char, quote_char * 2), quote_char
+        )
         return format_alias_sql(sql, self.alias, ctx)
 
     def get_json_value(self, key_or_index: str | int) -> "BasicCriterion":
@@ -1922,6 +1927,6 @@ class AtTimezone(Term):
         sql = "{name} AT TIME ZONE {interval}'{zone}'".format(
             name=self.field.get_sql(ctx),
             interval="INTERVAL " if self.interval else "",
-            zone=self.zone,
+            zone=str(self.zone).replace("'", "''"),
         )
         return format_alias_sql(sql, self.alias, ctx)
